@@ -192,6 +192,27 @@ def run_names(key):
             if bad:
                 return viol(bad)
             n += 1
+    # a bin whose target is 80 dB below the other bins gets the result it gets when it is processed alone
+    if not (needs_ref and ref is None) and F >= 2 and atfk == 'default':
+        Pxx3 = Pxx.copy()
+        where = (0,) * len(lead) + (0,)
+        Pxx3[where] = Pxx3[where] * 1e-8
+        sl = (0,) * len(lead) + (slice(0, 1),)
+        try:
+            got3 = np.asarray(bw.get_bf_vector(name, Pxx3, Pnn, **call_kw))
+            alone = np.asarray(bw.get_bf_vector(name, np.ascontiguousarray(Pxx3[sl]), np.ascontiguousarray(Pnn[sl]),
+                                                **call_kw))
+        except Exception as e:  # noqa
+            return viol(f'get_bf_vector({name!r}) raised {e!r} with a bin 80 dB below the others')
+        a, b = got3[where], alone[0]
+        if 'gev' in name or 'pca' in name:
+            ph = np.vdot(b, a)
+            a = a * np.conj(ph / abs(ph)) if abs(ph) > 0 else a
+        bad = tol.mismatch(a, b, 1e-9, what=f'{name}: bin {list(where)} (80 dB below the other bins) in the stack vs '
+                                             f'processed alone')
+        if bad:
+            return viol(bad)
+        n += 1
     return ok(outcome=tol.digest(np.abs(got)), evals=1 + n)
 
 
@@ -208,15 +229,18 @@ def run_apply(key):
     except Exception as e:  # noqa
         return viol(f'apply_beamforming_vector raised {e!r}')
     want = np.zeros(lead + (F, T), complex)
-    for idx in np.ndindex(*(lead + (F,))):
-        for t in range(T):
-            want[idx + (t,)] = np.vdot(w[idx], x[idx][:, t])
+    if T > 64:
+        want = np.einsum('...fd,...fdt->...ft', w.conj(), x)       # large mixtures: the loop below is too slow
+    else:
+        for idx in np.ndindex(*(lead + (F,))):
+            for t in range(T):
+                want[idx + (t,)] = np.vdot(w[idx], x[idx][:, t])
     bad = tol.mismatch(got, want, tol.TIGHT, what='apply_beamforming_vector vs w^H x')
     if bad:
         return viol(bad)
     if not lead:
         # a stack of K vectors (K, F, D) applied to one mixture (F, D, T): K outputs - also when K equals T or F
-        for Kv in sorted({2, T, F}):
+        for Kv in (sorted({2, T, F}) if T <= 64 else (2,)):
             wk = A.cnormal(A.rng(seed, 'c13apply-k', Kv, F, D, T), (Kv, F, D))
             try:
                 gk = np.asarray(bf.apply_beamforming_vector(wk, x))
@@ -229,6 +253,21 @@ def run_apply(key):
             bad = tol.mismatch(gk, wantk, tol.TIGHT, what=f'apply_beamforming_vector, {Kv} vectors on one mixture')
             if bad:
                 return viol(bad)
+    if lead:
+        # one vector per bin (F, D) applied to the whole batch of mixtures lead + (F, D, T): leading axes broadcast
+        # from the right, as everywhere in NumPy
+        w1 = np.ascontiguousarray(w[(0,) * len(lead)])
+        try:
+            gb = np.asarray(bf.apply_beamforming_vector(w1, x))
+        except Exception as e:  # noqa
+            return viol(f'apply_beamforming_vector raised {e!r} for a vector {w1.shape} and mixtures {x.shape}')
+        wantb = np.einsum('fd,...fdt->...ft', w1.conj(), x)
+        if gb.shape != wantb.shape:
+            return viol(f'apply_beamforming_vector: shape {gb.shape} != {wantb.shape} for a vector {w1.shape} and '
+                        f'mixtures {x.shape}')
+        bad = tol.mismatch(gb, wantb, tol.TIGHT, what=f'apply_beamforming_vector, vector {w1.shape} on mixtures {x.shape}')
+        if bad:
+            return viol(bad)
     return ok(outcome=tol.digest(want))
 
 
@@ -385,6 +424,9 @@ def subchecks(tier, seed):
                     for D in (1, 2, 3, 8):
                         for T in (1, 4, 5):
                             yield (lead, F, D, T, seed)
+            # mixtures of more than a million samples (a few seconds of a multi-channel STFT)
+            yield ((2,), 64, 4, 2100, seed)
+            yield ((), 257, 4, 1100, seed)
     subs.append(Sub('apply_beamforming_vector', ('lead', 'F', 'D', 'T', 'seed'), apply_cases, run_apply))
 
     def phase_cases():
